@@ -40,7 +40,7 @@ def _small_calls():
 
 SMALL_CALLS = _small_calls()
 SMALL_HIST = [[c] for c in SMALL_CALLS] + [[a, b] for a in SMALL_CALLS for b in SMALL_CALLS]
-N_RANDOM = {"quick": 1400, "thorough": 60000}
+N_RANDOM = {"quick": 1400, "thorough": 150000}
 BUDGET = {t: len(SMALL_HIST) + n for t, n in N_RANDOM.items()}
 MIN_EVALS = {"quick": 4000, "thorough": 100000}
 
@@ -52,7 +52,7 @@ def gen_case(rng, i, tier):
         hist = [{"ctor": False, "axes": ["X"], "vars": c, "overwrite": ow, "kspell": "tuple", "vspell": "list"} for c, ow in SMALL_HIST[i]]
         return {"layout": layout, "pool": pool, "history": hist, "mseed": 12345, "family": "exhaustive-small"}
     nax = rng.randint(1, 2)
-    layout = gen.random_layout(rng, nax=nax, nmin=2, nmax=4, p=0.6, at_least=2)
+    layout = gen.random_layout(rng, nax=nax, nmin=2, nmax=gen.deep(rng, tier, 4, 7), p=0.6, at_least=2)
     axn = [a["name"] for a in layout["axes"]]
     cm = gen.layout_coords(layout)
     sets = [[axn[0]]]
